@@ -1,0 +1,36 @@
+//go:build verif
+
+// Contracts for the deductive verifier kept in /verif (govc). This file is comment-only:
+// with the build tag off it does not exist for the compiler, with it on it compiles to nothing.
+package webdav
+
+//@ -- ---------------------------------------------------------------------------------------
+//@ -- C04 / C16: conditional header values (RFC 7232 section 3.1, 3.2)
+//@ spec tagMatches(val string, etag string) bool = etag != "" && (val == "*" || (unquoteOk(val) && unquoteVal(val) == etag))
+//@ spec tagMalformed(val string, etag string) bool = etag != "" && val != "*" && !unquoteOk(val)
+//@ func webdav.(ConditionalMatch).IsSet(val) (r)
+//@   ensures S1: r <==> val != ""
+//@ func webdav.(ConditionalMatch).IsWildcard(val) (r)
+//@   ensures W1: r <==> val == "*"
+//@ func webdav.(ConditionalMatch).ETag(val) (s, err)
+//@   ensures E1: err == nil <==> unquoteOk(string(val))
+//@   ensures E2: err == nil ==> s == unquoteVal(string(val))
+//@   ensures E3: err != nil ==> s == "" && httpCode(err) == -1 && !hostPath(err)
+//@ func webdav.(ConditionalMatch).MatchETag(val, etag) (ok, err)
+//@   ensures M1: (ok && err == nil) <==> tagMatches(string(val), etag)
+//@   ensures M2: err != nil <==> tagMalformed(string(val), etag)
+//@   ensures M3: err != nil ==> !ok && httpCode(err) == -1 && !hostPath(err)
+//@ func webdav.verifETagHeaderRoundTrip(s) (r, err)
+//@   ensures RT: err == nil && r == s
+
+//@ -- C04: the precondition truth table. etag is "" for an absent resource.
+//@ spec curTag(fi *FileInfo) string = fi == nil ? "" : fi.ETag
+//@ spec ifMatchOK(m string, etag string) bool = m == "" || tagMatches(m, etag)
+//@ func webdav.checkConditionalMatches(fi, ifMatch, ifNoneMatch) (err)
+//@   ensures T1: err == nil <==> ifMatchOK(string(ifMatch), curTag(fi))
+//@   |   && (ifNoneMatch == "" || (!tagMatches(string(ifNoneMatch), curTag(fi)) && !tagMalformed(string(ifNoneMatch), curTag(fi))))
+//@   ensures T2: httpCode(err) == 412 <==> (ifMatch != "" && !tagMatches(string(ifMatch), curTag(fi)) && !tagMalformed(string(ifMatch), curTag(fi)))
+//@   |   || (ifMatchOK(string(ifMatch), curTag(fi)) && ifNoneMatch != "" && tagMatches(string(ifNoneMatch), curTag(fi)))
+//@   ensures T3: httpCode(err) == 400 <==> (ifMatch != "" && tagMalformed(string(ifMatch), curTag(fi)))
+//@   |   || (ifMatchOK(string(ifMatch), curTag(fi)) && ifNoneMatch != "" && tagMalformed(string(ifNoneMatch), curTag(fi)))
+//@   ensures T4: err != nil ==> (httpCode(err) == 412 || httpCode(err) == 400) && !hostPath(err)
